@@ -495,8 +495,16 @@ where
         if let Some(ref mut data) = self.writing {
             while data.has_remaining() {
                 let stream = Pin::new(&mut self.stream);
-                let written = ready!(stream.poll_write(cx, data.chunk()))
-                    .map_err(convert_write_error_to_stream_error)?;
+                let written = match ready!(stream.poll_write(cx, data.chunk())) {
+                    Ok(written) => written,
+                    Err(err) => {
+                        // the stream cannot be written to any more: what is left of the
+                        // buffer will never go out, and keeping it would turn the next
+                        // `send_data` into an internal (connection level) error
+                        self.writing = None;
+                        return Poll::Ready(Err(convert_write_error_to_stream_error(err)));
+                    }
+                };
                 data.advance(written);
             }
         }
